@@ -9,6 +9,8 @@ package cert
 //     field by field and by fingerprint (Signed => decodes back).  The same content is also
 //     HAND-ENCODED (own DER / protobuf writer, no Sign involved) and given to the decoders: whatever
 //     a decoder accepts the signer must accept (Decoded => Shape).
+//     The size rule is swept byte by byte: for every exact length around MaxCertificateSize a certificate with a
+//     tuned filler group (fixed-length signatures) must be refused by Sign or decode back; Shape says which.
 //  T: seeded random TBS certificates (long names, dozens of networks and groups, odd validity) go
 //     through the same two checks; each is projected onto the abstract shape and logged, and TLC
 //     validates the log against Rel3 / Shape (Trace_CertCodec.tla).
@@ -17,6 +19,10 @@ package cert
 
 import (
 	"bytes"
+	"crypto/ecdsa"
+	"crypto/elliptic"
+	crand "crypto/rand"
+	"crypto/sha256"
 	"encoding/json"
 	"fmt"
 	"math/rand"
@@ -30,6 +36,7 @@ import (
 	"time"
 	"unicode/utf8"
 
+	"github.com/slackhq/nebula/cert/p256"
 	"google.golang.org/protobuf/encoding/protowire"
 )
 
@@ -51,6 +58,7 @@ type c03Shape struct {
 	Groups []c03Str `json:"groups"`
 	Nets   []c03Tok `json:"nets"`
 	Unsafe []c03Tok `json:"unsafe"`
+	Size   int      `json:"size,omitempty"` // boundary vectors only: exact length of the standard encoding
 }
 type c03Vec struct {
 	In  c03Shape `json:"in"`
@@ -75,6 +83,7 @@ type c03Conc struct {
 	nets, unsafe []c03Net
 	nb, na       time.Time
 	label        string // class of the input, for mismatch keys only
+	sigLen       int    // boundary vectors: every signature has exactly this many bytes, so sizes are exact (0: whatever Sign makes)
 }
 
 // the lattice tokens of CertCodec.tla (id = rank in (address, bits) order)
@@ -232,10 +241,57 @@ func (k *c03Keys) sign(c *c03Conc) (Certificate, error) {
 	for _, g := range c.groups {
 		tbs.Groups = append(tbs.Groups, string(g))
 	}
-	if c.ca {
-		return tbs.Sign(nil, c.curve, k.caPriv[c.curve])
+	var signer Certificate
+	if !c.ca {
+		signer = k.ca[c.ver][c.curve].cert
 	}
-	return tbs.Sign(k.ca[c.ver][c.curve].cert, c.curve, k.caPriv[c.curve])
+	if c.sigLen != 0 && c.curve == Curve_P256 {
+		// the same path as Sign (Sign is SignWith + this lambda), retried until the low-S DER signature has the wanted length
+		return tbs.SignWith(signer, c.curve, func(b []byte) ([]byte, error) {
+			pk, err := ecdsa.ParseRawPrivateKey(elliptic.P256(), k.caPriv[c.curve])
+			if err != nil {
+				return nil, err
+			}
+			h := sha256.Sum256(b)
+			for i := 0; i < 10000; i++ {
+				sig, err := ecdsa.SignASN1(crand.Reader, pk, h[:])
+				if err != nil {
+					return nil, err
+				}
+				if sig, err = p256.Normalize(sig); err == nil && len(sig) == c.sigLen {
+					return sig, nil
+				}
+			}
+			return nil, fmt.Errorf("verif: no %d-byte signature found", c.sigLen)
+		})
+	}
+	return tbs.Sign(signer, c.curve, k.caPriv[c.curve])
+}
+
+// sizeVector builds an ordinary v2 certificate (one filler group) whose standard encoding is exactly size bytes long.
+// nil: no filler length gives that size (DER length headers grow by a byte when the content passes 65535).
+func (k *c03Keys) sizeVector(s c03Shape) *c03Conc {
+	c := &c03Conc{ver: Version2, curve: certcodecCurve(s.Curve), ca: s.Ca, name: []byte("size.verif.example"),
+		nb: time.Unix(certcodecT0-500, 0), na: time.Unix(certcodecT0+500, 0), label: "size-boundary", sigLen: 64}
+	if c.curve == Curve_P256 {
+		c.sigLen = 71
+	}
+	if s.Ca {
+		c.key = k.caPub[c.curve]
+	} else {
+		c.key = k.host[c.curve]
+		c.nets = []c03Net{c03Table[2]}
+	}
+	L := s.Size - 400
+	for try := 0; try < 8; try++ {
+		c.groups = [][]byte{[]byte("ops"), bytes.Repeat([]byte("f"), L)}
+		n := len(k.handV2(c, false))
+		if n == s.Size {
+			return c
+		}
+		L += s.Size - n
+	}
+	return nil
 }
 
 // roundTrip: "" when all three encodings of the signed certificate decode back to it.
@@ -350,7 +406,11 @@ func (k *c03Keys) handV2(c *c03Conc, hs bool) []byte {
 			out = append(out, certcodecDER(TagCertPublicKey, c.key)...)
 		}
 	}
-	out = append(out, certcodecDER(TagCertSignature, bytes.Repeat([]byte{7}, 64))...)
+	sl := 64
+	if c.sigLen != 0 {
+		sl = c.sigLen
+	}
+	out = append(out, certcodecDER(TagCertSignature, bytes.Repeat([]byte{7}, sl))...)
 	return certcodecDER(0x30, out)
 }
 
@@ -413,6 +473,7 @@ type c03Out struct {
 	decHS    bool
 	decErr   string
 	panicked string
+	stdLen   int // length of the standard encoding of the signed certificate
 }
 
 func (o *c03Out) dec() bool { return o.decStd || o.decHS }
@@ -432,6 +493,9 @@ func (k *c03Keys) run(c *c03Conc) c03Out {
 			return
 		}
 		o.signOK = true
+		if b, err := sc.Marshal(); err == nil {
+			o.stdLen = len(b)
+		}
 		o.rt = c03RoundTrip(c, sc)
 	}()
 	var std, hs []byte
@@ -449,7 +513,9 @@ func (k *c03Keys) run(c *c03Conc) c03Out {
 		if certcodecIsPanic(err) {
 			o.panicked = err.Error()
 		}
-		if len(c.key) > 0 {
+		// size vectors: the limit is a rule about the standard encoding; the handshake form of the same content is a
+		// shorter byte string and may still be readable a few bytes above it
+		if len(c.key) > 0 && c.sigLen == 0 {
 			d, err = certcodecDecodeHS(c.ver, hs, c.key, c.curve)
 			o.decHS = err == nil && d != nil
 			if certcodecIsPanic(err) {
@@ -654,15 +720,35 @@ func TestVerif_C03(t *testing.T) {
 			defer wg.Done()
 			for i := range idx {
 				v := &vecs[i]
-				c := keys.concretise(v.In, t)
-				c.label = v.Exp.Why
-				if c.label == "" {
-					c.label = "ok"
+				b, _ := json.Marshal(v.In)
+				var c *c03Conc
+				if v.In.Size != 0 {
+					if c = keys.sizeVector(v.In); c == nil {
+						res.Hit("V:size-boundary:unreachable")
+						continue
+					}
+				} else {
+					c = keys.concretise(v.In, t)
+					c.label = v.Exp.Why
+					if c.label == "" {
+						c.label = "ok"
+					}
 				}
 				o := keys.run(c)
-				b, _ := json.Marshal(v.In)
 				res.Case(string(b))
-				res.Hit("V:shape:" + c.label)
+				if v.In.Size != 0 {
+					// the vector is about an exact size: what Sign issued must have it
+					if o.signOK && o.stdLen != v.In.Size {
+						t.Errorf("verif: size vector %s: the signed certificate is %d bytes long", b, o.stdLen)
+					}
+					if o.signOK {
+						res.Hit("V:size-boundary:signed")
+					} else {
+						res.Hit("V:size-boundary:refused")
+					}
+				} else {
+					res.Hit("V:shape:" + c.label)
+				}
 				judge(c, o, &v.Exp.Ok, map[string]any{"shape": v.In, "spec": v.Exp, "sign_error": o.signErr, "roundtrip": o.rt, "hand_decoded": o.dec(), "hand_error": o.decErr})
 				if i%4000 == 7 {
 					res.Sample(map[string]any{"shape": v.In, "spec": v.Exp, "sign": o.signOK, "roundtrip": o.rt, "hand_decoded": o.dec()})
